@@ -100,6 +100,7 @@ original code is accessible using the `CODE` attribute
 
 # `noqa` comments below avoid linters mistakenly finding imports needed for
 # `exec` calls in this module
+import ast
 import enum
 import itertools
 import keyword
@@ -740,9 +741,13 @@ def parse_model(model: str, *, check_syntax: bool = True) -> List[Symbol]:
         equation_symbols = parse_equation(statement)
 
         if check_syntax:
-            equation_code = [s.code for s in equation_symbols if s.code is not None]
+            equation_code = [
+                (s.code, s.type == Type.VERBATIM)
+                for s in equation_symbols
+                if s.code is not None
+            ]
 
-            for e in equation_code:
+            for e, is_verbatim in equation_code:
                 with warnings.catch_warnings(record=True) as w:
                     warnings.simplefilter('always')
 
@@ -771,6 +776,16 @@ def parse_model(model: str, *, check_syntax: bool = True) -> List[Symbol]:
                             f'Unexpected number of warnings (errors) '
                             f'when parsing: {statement}'
                         )
+
+                    # An equation must assign to its left-hand side:
+                    # comparisons such as `Y == X` and `Y <= X` also contain an
+                    # equals sign but, as code, do nothing
+                    if not is_verbatim and not isinstance(
+                        ast.parse(e).body[0],
+                        (ast.Assign, ast.AugAssign, ast.AnnAssign),
+                    ):
+                        problem_statements.append((i, statement, e))
+                        break
 
                     # Some statements compile on their own but not as part of
                     # the body of `_evaluate()`, which is where `build_model()`
